@@ -185,6 +185,13 @@ func nocopyCases(c *Ctx) []json.RawMessage {
 		s := randStruct(rng, []string{"Base", "BaseResp"}[i%2], true)
 		add(s)
 	}
+	// the two primitives called directly, every length around the threshold, with and without spare buffer room
+	for _, n := range []int{0, 1, 100, 4094, 4095, 4096, 4097, 4098, 8191, 8192, 12288, 70000} {
+		for slack := 0; slack < 3; slack++ {
+			add(StructCase{Schema: "RawStr", S: []StrSpec{{Len: n, Seed: 11}}, I: int64(slack)})
+			add(StructCase{Schema: "RawBin", S: []StrSpec{{Len: n, Seed: 12}}, I: int64(slack)})
+		}
+	}
 	return out
 }
 
